@@ -28,6 +28,10 @@ ASSUMPTIONS = ["dyadic forecasts / observations / thresholds / weights so float 
                "with discounting NaN is EXPECTED where the product is inf*0 (notes/C12.md N3), the penalty or 0 elsewhere; "
                "FIRM = sum w*Murphy is checked on them only where both sides are defined (murphy_skip_inf)",
                "severity labels are distinct, all str or all int, in ANY order (sent to Lean as their str())",
+               "the two sequences of firm in any container (list, tuple, ndarray float64 / float32 / int64, pandas Series with default / "
+               "permuted / filtered / duplicated / negative / float / string index or dtype object holding DataArrays, pandas Index, "
+               "1-D DataArray): the k-th weight goes with the k-th threshold in ITERATION order (position), never by index label; "
+               "expected = Lean Spec on the (threshold, weight) pairs by position (oracle and model alike, containers have no model)",
                "weights=None (apply_weights belongs to C03); equal coordinate label sets in any stored order",
                "dimension-name arguments are freshly built str objects (F10 regression guard)"]
 MANIFEST = dict(
@@ -78,6 +82,11 @@ RULE = ("FIRM: 2-D (a x b) dyadic fcst/obs (30 % obs copied from fcst), 1-3 thre
         "-inf bottom) / array thresholds / fcst+thresholds / everywhere x discount 0, finite, 0, inf cycled so every combination "
         "occurs, fcst and obs infinite at the same point, thresholds equal to an infinite fcst / obs, NaN 0-12 %, both assignments, "
         "expected = Lean Spec firmCaseX in extended-real arithmetic, plus FIRM = sum w * Murphy where both sides are defined; "
+        "container stream: container of the thresholds x container of the weights (list / tuple / ndarray float64, float32, int64 / "
+        "pandas Series with default, permuted (3 of 17), filtered, permuted+filtered, duplicated, negative, float, string index / "
+        "pandas Index / 1-D DataArray) cycled so every pair occurs, 2-4 distinct thresholds (40 % increasing, 15 % decreasing, rest "
+        "unordered) with pairwise distinct weights, 60 % / 50 % of the list / tuple / object-Series draws hold DataArrays over a / b / ab, "
+        "expected = Lean Spec on the pairs by position; "
         "severity labels: docstring families / random str or int labels whose given order differs from the sorted order in ~2/3 "
         "of the draws, probability thresholds in random order; risk matrix: 1-3 severity categories x 1-3 probability thresholds, "
         "fcst copied from a threshold 50 %, obs in {0,1,nan}; guards: fixed valid base with every parameter set exactly on / just "
@@ -193,6 +202,7 @@ def firm_inputs(c):
 def call_firm(c, reduce):
     from scores.categorical import firm
     f, o, ths, ws = firm_inputs(c)
+    ths, ws = wrap_seq(ths, c.get("tcont")), wrap_seq(ws, c.get("wcont"))
     kw = {}
     if reduce == "none":
         kw["preserve_dims"] = fresh("all")
@@ -233,6 +243,9 @@ def firm_compare(c, res, source):
         tags.update(fcst_dtype=c["fdt"], obs_dtype=c["odt"], thresholds="+".join(sorted({th_kind(t) for t in c["thresholds"]})))
     if "inf_slot" in c:
         tags.update(input_class="infinite", inf_slot=c["inf_slot"])
+    if "tcont" in c:
+        tags.update(input_class="sequence-container", thresholds_container=cont_name(c["tcont"]),
+                    weights_container=cont_name(c["wcont"]))
     try:
         r_all = call_firm(c, "none")
         r_red = r_all if c["reduce"] == "none" else call_firm(c, c["reduce"])
@@ -329,6 +342,13 @@ def tag_firm(ctx, c):
         ctx.tag("firm:array-threshold")
     if any(w["kind"] != "scalar" for w in c["weights"]):
         ctx.tag("firm:array-weight")
+    if "tcont" in c:
+        ctx.tag("firm:thresholds-container=" + cont_name(c["tcont"]))
+        ctx.tag("firm:weights-container=" + cont_name(c["wcont"]))
+        if any(t["kind"] != "scalar" for t in c["thresholds"]):
+            ctx.tag("firm:container-of-DataArray-thresholds")
+        if cont_positional(c["tcont"]) != cont_positional(c["wcont"]):
+            ctx.tag("firm:label-indexed-sequence-next-to-positional-one")
     if "odt" in c:
         ctx.tag("firm:obs-dtype=" + c["odt"])
         ctx.tag("firm:fcst-dtype=" + c["fdt"])
@@ -461,6 +481,145 @@ def run_firm_batch(ctx, batch, kind, op, n, murphy=False, mode=None, cases=None)
             for site, sig, ob, ex, tags in firm_vs_murphy(c):
                 ctx.fail(batch, kind, site, sig, dict(c, check="firm-murphy"), observed=ob, expected=ex, tags=tags,
                          theorem="firm_lower_eq_murphy")
+
+
+# ---- containers: `categorical_thresholds` / `threshold_weights` are SEQUENCES; the k-th weight goes with the k-th threshold in
+#      the order the sequence ITERATES (position), whatever container holds it: list, tuple, numpy array (float64 / float32 /
+#      int64), pandas Series with the default index, with a permuted integer index (a table after sort_values), with a filtered /
+#      non-contiguous / negative / duplicated integer index, with a string or float index, of dtype object holding DataArrays,
+#      pandas Index, 1-D DataArray, lists / tuples mixing scalars and DataArrays.  Expected = the Lean Spec on the
+#      (threshold, weight) pairs BY POSITION (the case dict stores both sequences in iteration order).
+CONT_KINDS = ["list", "series:perm", "ndarray:float64", "tuple", "series:default", "series:filtered", "ndarray:int64", "series:str",
+              "series:perm", "da1d", "series:perm-filtered", "ndarray:float32", "series:dup", "index", "series:negative",
+              "series:float", "series:perm"]
+CONT_ANY = ("list", "tuple", "series:perm", "series:default", "series:str", "series:perm-filtered")   # may hold DataArrays (Series: dtype object)
+SERIES_STR = ["minor", "moderate", "severe", "extreme", "c", "a", "b", "0", "1", "2"]
+
+
+def gen_cont(rng, kind, n, scalars_only, isint):
+    """container spec of kind `kind` for a sequence of n items"""
+    base, _, sub = kind.partition(":")
+    if base in ("list", "tuple"):
+        return {"c": base}
+    if base == "ndarray":
+        return {"c": base, "dt": sub}
+    dt = "object" if not scalars_only else ("int64" if isint else "float64")
+    if base in ("index", "da1d"):
+        return {"c": base, "dt": dt}
+    if sub == "default":
+        idx = None
+    elif sub == "perm":           # the index a table keeps after sort_values: 0..n-1 in another order
+        idx = list(range(n))
+        while idx == list(range(n)):
+            rng.shuffle(idx)
+    elif sub == "filtered":       # after boolean filtering: increasing, not 0..n-1
+        idx = list(range(n))
+        while idx == list(range(n)):
+            idx = sorted(rng.sample(range(n + 3), n))
+    elif sub == "perm-filtered":
+        idx = rng.sample(range(n + 3), n)
+        if idx == list(range(n)):
+            idx = idx[::-1]
+    elif sub == "dup":            # after concat: repeated labels
+        idx = [rng.randrange(max(1, n - 1)) for _ in range(n)]
+        if len(set(idx)) == n:
+            idx[-1] = idx[0]
+    elif sub == "negative":
+        idx = [-(i + 1) for i in range(n)]
+        if rng.random() < 0.5:
+            rng.shuffle(idx)
+    elif sub == "float":
+        idx = rng.sample([0.0, 1.0, 2.0, 0.5, 1.5, 3.0, -1.0], n)
+    else:
+        idx = rng.sample(SERIES_STR, n)
+    return {"c": "series", "dt": dt, "index": idx, "sub": sub}
+
+
+def cont_name(cont):
+    if cont["c"] == "series":
+        return "series[" + cont["sub"] + "]:" + cont["dt"]
+    return cont["c"] + ((":" + cont["dt"]) if "dt" in cont else "")
+
+
+def cont_positional(cont):
+    """[] on the container means position (everything but a Series whose index is not 0..n-1)"""
+    return cont["c"] != "series" or cont["index"] is None
+
+
+def wrap_seq(items, cont):
+    """the sequence `items` (Python numbers / DataArrays, in order) in the container described by `cont`"""
+    if cont is None:
+        return items
+    k = cont["c"]
+    if k == "list":
+        return list(items)
+    if k == "tuple":
+        return tuple(items)
+    if cont["dt"] == "object":
+        data = np.empty(len(items), dtype=object)
+        for i, x in enumerate(items):
+            data[i] = x
+    else:
+        data = np.array(items, dtype=cont["dt"])
+    if k == "ndarray":
+        return data
+    if k == "da1d":
+        return xr.DataArray(data, dims=[fresh("category")])
+    import pandas as pd
+    if k == "index":
+        return pd.Index(data)
+    return pd.Series(data, index=cont["index"])
+
+
+def gen_firm_cont(rng, k):
+    """k-th case of the container stream: container of the thresholds / of the weights cycle with k (every pair occurs within
+    len(CONT_KINDS)^2 consecutive k); 2-4 thresholds, distinct where the pool allows, all weights distinct, so that pairing a
+    weight with another threshold changes the score; scalars only unless both containers can hold DataArrays (then >= 1 array)"""
+    c = gen_firm(rng)
+    nk = len(CONT_KINDS)
+    tk, wk = CONT_KINDS[k % nk], CONT_KINDS[(k * 7 + k // nk) % nk]
+    na, nb = len(c["fcst"]), len(c["fcst"][0])
+    nt = rng.choice([2, 3, 3, 4])
+    t_int, w_int = tk == "ndarray:int64" or (tk.startswith("series") and rng.random() < 0.25), wk == "ndarray:int64"
+    vals = sorted({v for row in c["fcst"] + c["obs"] for v in row if not core.is_nan(v)}) or [0.0]
+    cand = sorted({v + s for v in vals for s in (0, 0, -0.5, 0.5, 0.25, 1, -1)})
+    if t_int:
+        cand = sorted({int(math.floor(v)) for v in cand} | {int(math.ceil(v)) for v in cand})
+    while len(cand) < nt:
+        cand.append(cand[-1] + 1)
+    tv = rng.sample(cand, nt)
+    r = rng.random()
+    if r < 0.4:
+        tv.sort()
+    elif r < 0.55:
+        tv.sort(reverse=True)
+    wv = rng.sample([1, 2, 3, 4, 5, 6] if w_int else [0.5, 1.0, 2.0, 3.0, 0.25, 4.0, 1.5], nt)
+    ths = [{"kind": "scalar", "v": v} for v in tv]
+    ws = [{"kind": "scalar", "v": v} for v in wv]
+
+    def shape(kind, draw):
+        if kind == "a":
+            return [draw() for _ in range(na)]
+        if kind == "b":
+            return [draw() for _ in range(nb)]
+        return [[draw() for _ in range(nb)] for _ in range(na)]
+    t_arr = tk in CONT_ANY and rng.random() < 0.6
+    if t_arr:      # sequences of DataArrays (thresholds by climatology), some entries scalar
+        for n in rng.sample(range(nt), rng.randint(1, nt)):
+            kind = rng.choice(["a", "b", "ab"])
+            ths[n] = {"kind": kind, "v": shape(kind, lambda n=n: NAN if rng.random() < 0.05 else tv[n] + rng.choice([0, 0, 0.5, -0.5, 1]))}
+    w_arr = wk in CONT_ANY and rng.random() < 0.5
+    if w_arr:
+        for n in rng.sample(range(nt), rng.randint(1, nt)):
+            kind = rng.choice(["a", "b", "ab"])
+            ws[n] = {"kind": kind, "v": shape(kind, lambda n=n: NAN if rng.random() < 0.08 else wv[n] * rng.choice([1, 1, 2, 0.5]))}
+    c.update(thresholds=ths, weights=ws, tcont=gen_cont(rng, tk, nt, not t_arr, t_int), wcont=gen_cont(rng, wk, nt, not w_arr, w_int))
+    return c
+
+
+def run_firm_cont_batch(ctx, batch, kind, op, n):
+    k0 = ctx.rng.randrange(len(CONT_KINDS) ** 2)
+    run_firm_batch(ctx, batch, kind, op, n, cases=[gen_firm_cont(ctx.rng, k0 + k) for k in range(n)])
 
 
 # ---- infinite values: +inf / -inf forecasts, observations and category thresholds are legal floats (a forecast above every
@@ -1306,6 +1465,7 @@ def correspondence(ctx):
     run_firm_batch(ctx, "impl-vs-model:firm", "correspondence", "c12.firm", ctx.n(120, 2500))
     run_firm_dtype_batch(ctx, "impl-vs-model:firm-storage-dtypes", "correspondence", "c12.firm", ctx.n(24, 400))
     run_firm_inf_batch(ctx, "impl-vs-model:firm-infinite", "correspondence", ctx.n(18, 150))
+    run_firm_cont_batch(ctx, "impl-vs-model:firm-containers", "correspondence", "c12.firm", ctx.n(17, 300))
     firm_guard_batch(ctx, "impl-vs-model:firm-guards", "correspondence", ctx.n(60, 600))
     rms = [gen_rm(ctx.rng) for _ in range(ctx.n(120, 2500))]
     res = core.run_driver("C12", [rm_op(c) for c in rms])
@@ -1363,6 +1523,9 @@ def oracle(ctx, boost):
     # +inf / -inf forecasts, observations, thresholds (scalar and array; +inf top, -inf bottom), discount 0 / finite / inf, both
     # assignments: expected = the Lean Spec in extended-real arithmetic (firmCaseX); FIRM = sum w * Murphy where both are defined
     run_firm_inf_batch(ctx, "impl-vs-spec:firm-infinite", "property", ctx.n(48, 500) * (2 if boost else 1), murphy=True)
+    # the two sequences in every container the signature allows (list, tuple, ndarray, pandas Series with default / permuted /
+    # filtered / string index, Index, 1-D DataArray, sequences of DataArrays): weights pair with thresholds BY POSITION
+    run_firm_cont_batch(ctx, "impl-vs-spec:firm-containers", "property", "c12.firm_spec", ctx.n(51, 1200) * (2 if boost else 1))
     if boost:
         for mode in ("lower", "upper"):
             run_firm_batch(ctx, "impl-vs-spec:firm", "property", "c12.firm_spec", 80, murphy=True, mode=mode)
